@@ -270,6 +270,39 @@ def _q2(ctx, fi):
                 sub = c.args[0] if c.args else None
                 same = isinstance(sub, ast.ListComp) and len(sub.generators) == 1 and norm(sub.generators[0].iter) in keys + ["jobs"] and not sub.generators[0].ifs
                 ctx.check(same, R, fi, p, "ordered results are zipped with a key sequence that is not the one the jobs were submitted in", "ordered run zipped with the submission key sequence")
+        elif isinstance(p, ast.Assign) and len(p.targets) == 1 and isinstance(p.targets[0], ast.Name):
+            # the stream is bound to a local first: follow the local to its (single) consumer
+            sv = p.targets[0].id
+            uses = [x for x in fi.walk() if isinstance(x, ast.Name) and x.id == sv and isinstance(x.ctx, ast.Load)]
+            ctx.require(len(uses) == 1, R, f"{fi.fq}: uses of the dict-path stream `{sv}`: {len(uses)}")
+            up = pm.get(id(uses[0]))
+            if isinstance(up, ast.Call) and call_name(up) in ("zip", "enumerate", "list", "tuple") and unordered:
+                ctx.bad(R, fi, up, f"results of an unordered run (return_as={norm(ra)}) are paired with keys positionally through {call_name(up)}(): a key gets the result of whichever job finished in its position")
+            elif isinstance(up, ast.Call) and isinstance(up.func, ast.Name) and m.funcs.get(up.func.id) is not None and unordered:
+                # a gathering helper: it may store by tag, but what it returns must be ordered by tag, not by arrival
+                h = m.funcs[up.func.id]
+                hp = h.params()[0]
+                filled = set()
+                for st_ in h.stmts():
+                    if isinstance(st_, ast.For) and norm(st_.iter) == hp:
+                        for b in ast.walk(st_):
+                            if isinstance(b, ast.Assign) and isinstance(b.targets[0], ast.Subscript) and isinstance(b.targets[0].value, ast.Name):
+                                filled.add(b.targets[0].value.id)
+                ctx.require(bool(filled), R, f"{h.fq}: no keyed store of the tagged results")
+                rets = [r for r in h.stmts() if isinstance(r, ast.Return) and r.value is not None]
+                ctx.require(len(rets) == 1, R, f"{h.fq}: returns")
+                rv = rets[0].value
+                arrival = any(isinstance(c_, ast.Call) and isinstance(c_.func, ast.Attribute) and c_.func.attr in ("values", "items", "keys") and isinstance(c_.func.value, ast.Name) and c_.func.value.id in filled for c_ in ast.walk(rv)) \
+                    and not any(isinstance(c_, ast.Call) and call_name(c_) == "sorted" for c_ in ast.walk(rv))
+                by_index = isinstance(rv, (ast.ListComp, ast.GeneratorExp)) or (isinstance(rv, ast.Name) and rv.id in filled and any(
+                    isinstance(a_, ast.Assign) and isinstance(a_.targets[0], ast.Name) and a_.targets[0].id == rv.id and isinstance(a_.value, ast.BinOp) for a_ in h.stmts()))
+                if arrival:
+                    ctx.bad(R, h, rets[0], f"`{norm(rets[0])}`: the dict was filled in ARRIVAL order (dicts remember insertion order), so its values come back in completion order and are then zipped with the keys positionally")
+                else:
+                    ctx.require(by_index, R, f"{h.fq}: how the gathered results are ordered (`{norm(rv)[:60]}`)")
+                    ctx.ok(R, h, rets[0], "gathered results returned by tag order")
+            else:
+                ctx.require(False, R, f"{fi.fq}: dict-path stream `{sv}` consumed by `{norm(up)[:80]}`")
         else:
             ctx.require(False, R, f"{fi.fq}: dict-path stream consumed by `{norm(p)[:80]}`")
     # the returned dict
